@@ -24,9 +24,12 @@ for root, _d, files in os.walk(os.path.join(REPO, "optuna")):
             except SyntaxError:
                 continue
             t = alpha.table_for(tree)
+            pf = alpha.private_function_table(tree)
+            if pf:
+                t["__funcs__"] = pf
             if t:
                 # a module whose source is byte-identical to the reference needs no renaming at all
                 t["__digest__"] = hashlib.sha256(src.encode()).hexdigest()[:16]
                 out[rel] = t
 json.dump(out, open(os.path.join(VERIF, "sa", "localnames.json"), "w"), indent=0, sort_keys=True)
-print(len(out), "modules,", sum(len(v) - 1 for v in out.values()), "functions,", sum(len(x) for v in out.values() for k, x in v.items() if k != "__digest__"), "locals")
+print(len(out), "modules,", sum(len([k for k in v if not k.startswith("__")]) for v in out.values()), "functions,", sum(len(x) for v in out.values() for k, x in v.items() if not k.startswith("__")), "locals")
